@@ -228,6 +228,10 @@ Inductive ev :=
 | EFire (e : nat) (d : Z)    (* slot of entry e invoked; d = time of the popped handle *)
 | EOut (o : out)             (* result of one basic op (top level or inside a slot) *)
 | EFuel                      (* the harness' slot budget was exceeded (slot threw before its body) *)
+| EBad (e : nat)             (* choice-driven model only: the implementation fired an entry that is not a
+                               due minimum of the pending map (or not pending at all) *)
+| EStuck                     (* choice-driven model only: the implementation stopped dispatching while a
+                               timer with due <= t was still pending *)
 | ELoop (tnow snow r : Z).   (* end of a loop iteration: Thread::m_cached_time, Scheduler::m_cached_time,
                                poll timeout handed to Poll::do_poll *)
 
